@@ -41,7 +41,7 @@ CHECKS["C01"] = (
 CHECKS["C02"] = (
     "exploration",
     "runtime effect-trace monitor: tracer calls recorded while compiled programs run, compared with the reference evaluator's effect trace (multiset then order); container x position x compound table, random programs, all :inline core Vars with traced arguments",
-    "Held (apart from recorded findings: hoisted dependencies, textual auto-inlining of 6 core fns) on the full container/position/compound table (19 containers x 4 positions x 11 compounds x 3 option sets), random and exhaustive small programs, and every inline core Var. Exploration.",
+    "Held (apart from recorded findings: hoisted dependencies, textual auto-inlining of 6 core fns) on the full container/position/compound table (26 containers, among them host field access on call targets and as if tests, x up to 4 positions x 11 compounds x 3 option sets), random and exhaustive small programs, and every inline core Var. Exploration.",
     "Trusted: the reference evaluator's left-to-right exactly-once trace; for map/set literals only the multiset of effects is judged; a call that raises on ill-typed arguments is only required to show an in-order prefix.",
     "DESIGN.md section 5 C02",
 )
@@ -57,7 +57,7 @@ CHECKS["C03"] = (
 CHECKS["C04"] = (
     "exploration",
     "history + executable model monitor (Python list/dict/set models mirrored op by op, every value ever produced re-checked against its creation-time snapshot, hash and metadata) plus an invariant hook on every public method of the five persistent classes (receiver unchanged across the call)",
-    "Held on branching histories over the five collection types: exhaustive to length 2 and a 1/3 (thorough: length 4, 1/8) systematic sample of length 3 over a key universe with equal keys of different representation, random histories to length 60 growing past 33/1057 elements with transient round trips, several hash seeds. Exploration.",
+    "Held on branching histories over the five collection types: exhaustive to length 2 and a 1/3 (thorough: length 4, 1/8) systematic sample of length 3 over a key universe with equal keys of different representation, random histories to length 60 growing past 33/1057 elements with transient round trips, several hash seeds; thorough also runs the repository's own core/collection/reader/runtime tests with the receiver-immutability hook loaded in every pytest process (their verdicts ignored). Exploration.",
     "Trusted: the Python list/dict/set models and the harness' model-key function (numbers by value, sequentials by elements); error behaviour of pop/nth outside the collection, iteration order and metadata propagation through pop/rest/merge/transients are not judged.",
     "DESIGN.md section 5 C04",
 )
@@ -65,7 +65,7 @@ CHECKS["C04"] = (
 CHECKS["C07"] = (
     "exploration",
     "differential reference monitor: the five application forms (lazy, into, sequence, transduce, eduction) of every listed function and of comp pipelines vs list-based reference definitions; instrumented inputs count pulls, an instrumented reducing function counts completion calls",
-    "Held (apart from the recorded distinct/bool-number conflation) on 52 function/parameter cases x all inputs to length 4 (thorough 6) over {nil,false,0,1,2,:a} x 5 forms (exhaustive), random pipelines of depth 2-3, and terminating pipelines on inputs of length 4L/8L/infinite with pull and completion counting. Exploration.",
+    "Held (apart from the recorded distinct/bool-number conflation) on 52 function/parameter cases x all inputs to length 4 (thorough 6) over {nil,false,0,1,2,:a} x 5 forms (exhaustive), random pipelines of depth 2-3, and terminating pipelines on inputs of length 4L/8L/infinite with pull and completion counting (a logical bound of 20000 pulls on infinite inputs; take n must consume nothing after the deciding element). Exploration.",
     "Trusted: the Python reference definitions of the 18 functions; parameters kept in the unambiguous domain; inner partition types not compared; transduce on an empty collection returning init without completion is documented and not judged.",
     "DESIGN.md section 5 C07",
 )
@@ -105,7 +105,7 @@ CHECKS["C11"] = (
 CHECKS["C06"] = (
     "exploration",
     "runtime monitoring with counting producers: single-threaded consumption histories over 9 lazy source kinds are compared with a list model (at-most-once, agreement, on-demand bound, exception propagation); multi-threaded scenarios (blocking, sleeping, throwing, re-entrant producers; 2-4 walkers) run each in its own child interpreter against the native module rebuilt from /repo/rust, with faulthandler armed and an outer watchdog that must fire 3/3 to count as a liveness violation",
-    "Held on thousands of single-threaded histories and ~80 (thorough ~1800) multi-threaded scenario instances with real preemption (1 microsecond switch interval, GIL-releasing producers). Exploration: interleavings are those the OS scheduler produced, not enumerated - the native mutex is invisible to Python-level yield injection.",
+    "Held on thousands of single-threaded histories and ~80 (thorough ~1800) multi-threaded scenario instances of 7 families (the seventh: consumers entering one inner sequence directly and through lazy-seq / lazy-cat / concat wrappers while its producer is parked) with real preemption (1 microsecond switch interval, GIL-releasing producers). Exploration: interleavings are those the OS scheduler produced, not enumerated - the native mutex is invisible to Python-level yield injection.",
     "Trusted: the list model of each source; both retry and re-raise are accepted after a producer exception; the 3/3 watchdog rule for interpreter wedges; lock-order inversions between two different lazy seqs are not driven.",
     "DESIGN.md section 5 C06",
 )
@@ -137,7 +137,7 @@ CHECKS["C18"] = (
 CHECKS["C15"] = (
     "translation_validation",
     "invariant at a hook: PythonASTOptimizer.visit is wrapped in the worker and every (before, after) module pair produced while the real compiler compiles basilisp.core, the bundled namespaces (from source, caching off), the generated program corpus and a targeted operator corpus is checked rewrite by rewrite against an independent canonicaliser of the allowed rewrites; generated programs and operator forms are also executed with the real optimizer and with a least-optimizing baseline (value, exception class, effect trace compared)",
-    "Held on ~7000 module pairs in quick (core + 12 library namespaces + generated programs + 2400 operator forms), of which ~4700 were actually changed by the optimizer and each validated; thorough adds all bundled namespaces and ~126000 generated programs. Translation validation of the executions produced, not a proof about the pass.",
+    "Held on ~11000 module pairs in quick (core + 12 library namespaces + generated programs + 2400 operator forms + 300 nested-def programs with sync/async levels and unreachable code), of which ~5000 were actually changed by the optimizer and each validated; thorough adds all bundled namespaces, ~126000 generated programs and the repository's compiler/core/library tests as a compile workload under the monitor (~500000 pairs). Translation validation of the executions produced, not a proof about the pass.",
     "Trusted: vf/pyast_canon.py as the definition of the allowed rewrites; CPython's ast/compile; Name loads are effect free; location attributes ignored.",
     "DESIGN.md section 5 C15",
 )
@@ -153,7 +153,7 @@ CHECKS["C14"] = (
 CHECKS["C10"] = (
     "exploration",
     "history + executable model monitor: after every step of def/redef/alias/refer(:rename)/alter-var-root histories every spelling of every visible name (bare, alias, qualified, @#', resolve, ns-resolve, syntax-quote) is compiled and run under direct linking and var indirection with and without inlining, from both namespaces, and compared with a (ns, name) -> Var -> (root, last def) model; injectivity, privacy, local shadowing and thread-binding visibility are asserted at each step",
-    "Held (apart from the recorded munge non-injectivity) on ~560 (thorough 40000) random histories over 12 names with munging near-collisions in 2 namespaces plus 9 fixed scenarios, ~70000 compiled reads in quick. Exploration.",
+    "Held (apart from the recorded munge non-injectivity) on ~560 (thorough 9600) random histories over 12 names with munging near-collisions in 2 namespaces plus 9 fixed scenarios, ~70000 compiled reads in quick. Exploration.",
     "Trusted: the name/Var model; alter-var-root on a direct-linked, non-redef, non-dynamic Var may or may not be visible (both accepted, as documented).",
     "DESIGN.md section 5 C10",
 )
